@@ -61,6 +61,17 @@ class _RetryBase(Contract):
         st.hints += [limit <= 2, chi - clo <= 2, clo == 0]
         return None, CallArgs(star=self.args, starstar=self.kwargs)
 
+    oracle_metadata_may_be_absent = True
+
+    def attr(self, it, obj, name, node):
+        # the wrapped callable is any callable: functools.partial objects and callable instances have no __name__
+        # (mimic_function tolerates that at decoration time; so must the retry path)
+        if obj.eq(self.fn) and name in ("__name__", "__qualname__"):
+            if it.st.fork(f"function.{name}", [("present", True), ("absent(partial-or-callable-object)", True)]) == 1:
+                raise PyRaise(it.new_exc("AttributeError"), f"the wrapped callable has no {name}")
+            return it.st.fresh_val(f"function.{name}")
+        return None
+
     # ---------------------------------------------------------------------------------- oracles
     def fn_spec(self, it, ov, cargs, node):
         st = it.st
